@@ -638,6 +638,41 @@ func (g *pg) boolE(d int) *ir.Expr {
 			}
 		}
 		return g.guarded(d)
+	case 13:
+		// a `has` guard that only one branch of an if-then-else establishes, used as if both did:
+		// `(if c then x has a else <other guard or true>) && x.a ...` - the capabilities of an `if` are the intersection
+		// of its branches, a validator that takes the union accepts an unguarded optional access
+		if g.slip("guard-in-one-if-branch") {
+			ps := g.pathsOf(func(p ppath) bool { return len(g.missing(p)) == 1 && p.t.K != ir.KRecord })
+			if len(ps) > 0 {
+				p1 := g.paths[gen.Pick(rt, ps, "ifg1")]
+				other := ir.Lit(ir.Bool(true))
+				if len(ps) > 1 && gen.Chance(rt, 60, "ifg2") {
+					p2 := g.paths[gen.Pick(rt, ps, "ifg2i")]
+					if g.missing(p2)[0].key() != g.missing(p1)[0].key() {
+						other = g.missing(p2)[0].expr()
+					}
+				}
+				guard := ir.If(g.boolLeaf(), g.missing(p1)[0].expr(), other)
+				if gen.Chance(rt, 50, "ifgswap") {
+					guard = ir.If(g.boolLeaf(), other, g.missing(p1)[0].expr())
+				}
+				return ir.Bin(ir.OpAnd, guard, g.use(p1.e.Clone(), p1.t, 0))
+			}
+		}
+		return g.guarded(d)
+	case 14:
+		// an attribute that only one branch of a record-typed `if` has, read without a guard
+		if g.slip("record-branches-different-width") {
+			narrow := ir.RecE([]string{"a"}, []*ir.Expr{ir.Lit(ir.Long(1))})
+			wide := ir.RecE([]string{"a", "b"}, []*ir.Expr{ir.Lit(ir.Long(2)), ir.Lit(ir.Long(3))})
+			rec := ir.If(g.boolLeaf(), narrow, wide)
+			if gen.Chance(rt, 50, "widthswap") {
+				rec = ir.If(g.boolLeaf(), wide, narrow)
+			}
+			return ir.Bin(ir.OpEq, ir.Access(rec, "b"), ir.Lit(ir.Long(3)))
+		}
+		return g.guarded(d)
 	default:
 		return g.guarded(d)
 	}
